@@ -290,6 +290,54 @@ func (u *Unit) finish() {
 	}
 }
 
+// frameFormula states, for a state st, that every pre-existing object outside the modifies
+// clause of b is unchanged since entry (nil if the clause allows everything).
+func (u *Unit) frameFormula(b *Block, st *State, entry *State, pos token.Pos) []string {
+	allowedAll := map[string]bool{}
+	except := map[string][]string{}
+	for _, c := range b.clauses("modifies") {
+		for _, item := range splitTopSpaces(c.Text) {
+			if item == "*" {
+				return nil
+			}
+			ce := u.specEv(entry, pos)
+			ce.old = entry
+			name, _, ref, ok := ce.modItem(item, ce)
+			if !ok {
+				continue
+			}
+			if ref == "" {
+				allowedAll[name] = true
+			} else {
+				except[name] = append(except[name], ref)
+			}
+		}
+	}
+	var out []string
+	for _, h := range sortedHeapNames(st.heaps) {
+		if allowedAll[h] || strings.HasPrefix(h, "B$") || strings.HasPrefix(h, "G$") {
+			continue
+		}
+		init, ok := u.inits[h]
+		cur := st.heaps[h]
+		if !ok || cur.S == init.S {
+			continue
+		}
+		var ex []string
+		for _, r := range except[h] {
+			ex = append(ex, smtNot(smtEq("r", r)))
+		}
+		u.g.Pre.add("(declare-fun fresh$ (Int) Bool)")
+		out = append(out, fmt.Sprintf("(forall ((r Int)) (! (=> %s (= (select %s r) (select %s r))) :pattern ((select %s r))))", smtAnd(append([]string{"(not (fresh$ r))"}, ex...)...), cur.S, init.S, cur.S))
+	}
+	return out
+}
+
+func (u *Unit) hasFrame() bool {
+	b := u.block
+	return b != nil && (len(b.clauses("modifies")) > 0 || hasFlag(b, "pure") || hasFlag(b, "frame") || len(b.clauses("allocates")) > 0)
+}
+
 func (u *Unit) frameObligations(b *Block, exits []*Exit, entry *State, pos token.Pos, id string) {
 	allowedAll := map[string]bool{}
 	except := map[string][]string{}
@@ -408,8 +456,9 @@ func (g *Gen) axiomsText(u *Unit) string {
 func (o *Obligation) query(g *Gen, withModel bool) string { return o.queryV(g, withModel, 0) }
 
 // queryV builds the SMT query. variant 0 = full; 1 = without heavy hypotheses (quantified facts
-// over float carriers); 2 = additionally without the global carrier/bridge axioms. Variants
-// only drop hypotheses, so unsat on a variant is still a proof of the obligation.
+// over float carriers); 2 = additionally without the global carrier/bridge axioms; 3 = additionally
+// without the quantified non-freshness axioms of the initial heaps. Variants only drop
+// hypotheses, so unsat on a variant is still a proof of the obligation.
 func (o *Obligation) queryV(g *Gen, withModel bool, variant int) string {
 	if o.Raw != "" {
 		return o.Raw
@@ -422,6 +471,7 @@ func (o *Obligation) queryV(g *Gen, withModel bool, variant int) string {
 	} else {
 		sb.WriteString(g.groundAxiomsText(o.unit))
 	}
+	seen := map[string]bool{}
 	if o.unit != nil {
 		for _, d := range o.unit.decls {
 			sb.WriteString(d + "\n")
@@ -430,6 +480,13 @@ func (o *Obligation) queryV(g *Gen, withModel bool, variant int) string {
 			if variant > 0 && isHeavyHyp(d) {
 				continue
 			}
+			if variant > 2 && strings.HasPrefix(d, "(forall (") && strings.Contains(d, "(not (fresh$ ") {
+				continue
+			}
+			if seen[d] {
+				continue
+			}
+			seen[d] = true
 			sb.WriteString("(assert " + d + ")\n")
 		}
 	}
@@ -437,6 +494,10 @@ func (o *Obligation) queryV(g *Gen, withModel bool, variant int) string {
 		if variant > 0 && isHeavyHyp(h) {
 			continue
 		}
+		if seen[h] {
+			continue
+		}
+		seen[h] = true
 		sb.WriteString("(assert " + h + ")\n")
 	}
 	goal := o.Goal
